@@ -234,11 +234,11 @@ def freeAll (a : Alloc) : List Ident → Out Alloc
     | .ub e => .ub e
     | .ok a' => freeAll a' ids
 
-/-- The archetypes in the order the table iterator visits them: those named by `order` (masks,
-as observed on the real table) first, any others after, each once. -/
+/-- The archetypes in the order the table iterator visits them: sorted by the position of their
+mask in `order` (the masks as observed on the real table, in table order); tables `order` does not
+name come last, in creation order.  By construction a permutation of the tables. -/
 def visitOrder (w : World) (order : List Mask) : List Arch :=
-  (order.eraseDups.filterMap (fun m => w.archs.find? (fun a => a.mask == m)))
-    ++ w.archs.filter (fun a => !order.contains a.mask)
+  w.archs.mergeSort (fun a b => decide (order.idxOf a.mask ≤ order.idxOf b.mask))
 
 /-- `World::clear`: every archetype is emptied and every stored identifier freed, archetype by
 archetype in table order, row by row. -/
